@@ -42,7 +42,7 @@ CONFIGS = {
 
 
 def bounds(tier):
-    return dict(tier=tier, schemas=len(_schemas(tier)), owner_configs=list(CONFIGS), dialects=2, all_refs=2, ref_prefixes=[None, "#/x", "#/x/"],
+    return dict(tier=tier, schemas=len(_schemas(tier)), owner_configs=list(CONFIGS), owner_configs_at_depth_2=["default", "all_three", "by_alias"] if tier == "thorough" else "n/a (quick has depth <= 1)", dialects=2, all_refs=2, ref_prefixes=[None, "#/x", "#/x/"],
                 with_definitions=[True, False], builder_history_depth=5, shared_context_history_depth=3,
                 shared_contexts=list(CFam.CONTEXTS), per_call_overrides=list(CModel.OVERRIDES),
                 combinations="all 14 meaningful (dialect, all_refs, ref_prefix, with_definitions) in thorough; 6 covering every value of each in quick",
@@ -63,7 +63,9 @@ QUICK_COMBOS = {("DRAFT_2020_12", False, None, True), ("DRAFT_2020_12", True, "#
 
 
 def units(tier):
-    out = [("total", d, c, tier) for d in _schemas(tier) for c in CONFIGS]
+    # thorough: every owner configuration for the depth <= 1 schemas, three of them (default / all_three / by_alias) for depth 2
+    out = [("total", d, c, tier) for d in _schemas(tier) for c in CONFIGS
+           if tier == "quick" or space.depth(d) <= 1 or c in ("default", "all_three", "by_alias")]
     out += [("hist", variant) for variant in ("plain", "mixin", "all_refs")]
     # a user-supplied Context shared by a sequence of build_json_schema calls with per-call overrides
     out += [("hist", "context:" + c) for c in CFam.CONTEXTS]
